@@ -43,7 +43,10 @@ func init() {
 			"formatted under 4 configurations (CLI default via FormatFile; random indent 0-8/blank cap/rule table; compact+strip; strip or compact keeping comments). " +
 			"Coverage classes are derived from the oracle's own reading of the INPUT: C|mode|comment position|same-line/own-line|kind of next token|blank line before|blank line after; " +
 			"K|mode|node kind present (each literal spelling class, bracket kind, prefix, longhand prefix form with arity)|outcome changed/unchanged; L|mode|layout feature|outcome; " +
-			"G|indent|blank cap|rules|mode|source kind; R|source kind|reader error class for rejected texts. Empty texts and oracle-inconclusive cases add no class.",
+			"G|indent|blank cap|rules|mode|source kind; R|source kind|reader error class for rejected texts. Empty texts and oracle-inconclusive cases add no class. " +
+			"Appended behind these (128 / 3 000 cases, c16_window.go): an accepted text that receives ONE lexeme sized relative to the 128 KiB scanner window every reader scans through " +
+			"(string, raw string, symbol, keyword, qualified symbol, float, comment, end-of-input comment, hash-bang line, whitespace run; W-1/W/W+1 enumerated per kind and placement, then W-9..W+5, 2W, 129-300 KB, W-4000..W-10), " +
+			"judged with the sliding-window reader as THE reader for input and output; classes W|kind|length class|placement|mode|accepted/rejected.",
 		Assumptions: []string{
 			"the strict reader (rdparser.New(...).ParseProgram) defines which texts are accepted and what tree a text reads to",
 			"the public lexer's token stream is the ground truth for literal spellings, bracket characters and comment tokens (byte offsets are recomputed by the oracle, Source.Pos is not trusted)",
